@@ -2,7 +2,9 @@
 (***************************************************************************)
 (* Trace validation for QueueDisk.tla (C02).  One trace = all incarnations *)
 (* of one queue over one spool: Cfg, QBody, Fs*, QBodyRet, QCommit|QAbort, *)
-(* T*, Dsn, Fs*, Crash, Restart, ..., Final.  Same scheme as QueueTrace:   *)
+(* T*, Dsn, Fs*, Crash, Restart, ..., Final; a refused message is QBody,   *)
+(* Fs*, FsErr, Fs* (clean-up), QBodyRet(err), QAbort, QAbortRet.  Same     *)
+(* scheme as QueueTrace:                                                   *)
 (* C_Step = conforming design step with the logged arguments; M_Step =     *)
 (* monitor-only fold (drift); verdict published at "Final".                *)
 (***************************************************************************)
@@ -21,13 +23,13 @@ Publish(d, da, o) ==
   TLCSet(1, TLCGet(1) \cup {[t |-> tno, drift |-> d, driftAt |-> da, viol |-> o.viol]})
 
 TInit ==
-  /\ InitWith([partial |-> FALSE, list |-> <<>>])
+  /\ InitWith([partial |-> FALSE, list |-> <<>>, body |-> "data"])
   /\ l = 1 /\ drift = FALSE /\ driftAt = 0 /\ tno = 0
   /\ TLCSet(1, {})
 
 TReset ==
   /\ IsEv("Cfg")
-  /\ cfg' = [partial |-> Ev.partial, list |-> Ev.list]
+  /\ cfg' = [partial |-> Ev.partial, list |-> Ev.list, body |-> Ev.body]
   /\ disk' = EmptyDisk
   /\ up' = TRUE /\ pc' = "new" /\ chain' = <<>> /\ ci' = 0 /\ wdone' = FALSE /\ after' = ""
   /\ wcontent' = NoContent /\ mem' = FALSE
@@ -41,10 +43,12 @@ TReset ==
 FsName(e) == e.op \o ":" \o e.file
 
 C_QBody     == IsEv("QBody") /\ QBody
-C_Fs        == IsEv("Fs") /\ (Fs(FsName(Ev)) \/ (FsName(Ev) = "remove:meta" /\ DanglingFs))
-C_QBodyRet  == IsEv("QBodyRet") /\ QBodyRet
+C_Fs        == IsEv("Fs") /\ (Fs(FsName(Ev)) \/ CleanupFs(FsName(Ev)) \/ (FsName(Ev) = "remove:meta" /\ DanglingFs))
+\* a call inside storeNewMessage returned an error (injected I/O error, faulty source buffer)
+C_FsErr     == IsEv("FsErr") /\ FsName(Ev) \in FailOps /\ StoreFail(FsName(Ev))
+C_QBodyRet  == IsEv("QBodyRet") /\ IF Ev.err THEN QBodyErr ELSE QBodyRet
 C_QCommit   == IsEv("QCommit") /\ QCommit
-C_QAbort    == IsEv("QAbort") /\ QAbort
+C_QAbort    == IsEv("QAbort") /\ (QAbort \/ QAbortNoBody)
 C_QAbortRet == IsEv("QAbortRet") /\ QAbortRet
 C_TStart    == IsEv("TStart") /\ TStart(Ev.res)
 C_TAddRcpt  == IsEv("TAddRcpt") /\ pc = "rcpt" /\ idx <= Len(to) /\ to[idx] = Ev.r /\ TAddRcpt(Ev.res)
@@ -60,7 +64,7 @@ C_Restart   == IsEv("Restart") /\ Restart
 C_Final     == IsEv("Final") /\ Final
 
 Conform ==
-  \/ C_QBody \/ C_Fs \/ C_QBodyRet \/ C_QCommit \/ C_QAbort \/ C_QAbortRet
+  \/ C_QBody \/ C_Fs \/ C_FsErr \/ C_QBodyRet \/ C_QCommit \/ C_QAbort \/ C_QAbortRet
   \/ C_TStart \/ C_TAddRcpt \/ C_TBody \/ C_TBodyNA \/ C_TCommit \/ C_TAbort \/ C_Dsn
   \/ C_Crash \/ C_Restart \/ C_Final
 
